@@ -335,9 +335,33 @@ func c02GenPath(r *core.Rng) *xp.Node {
 	return xp.PathNode(p)
 }
 
+// c02TagsPath: a path without predicates whose last step is the leaf-list "tags" (the mock trees answer
+// any node of that name with two values).
+func c02TagsPath(r *core.Rng) *xp.Node {
+	p := &xp.Path{Root: core.Pick(r, []string{xp.RootRel, xp.RootRel, xp.RootAbs, xp.RootCurrent})}
+	p.Steps = c02GenSteps(r, r.Range(0, 2), false, p.Root != xp.RootAbs && r.Bool(), 1)
+	if p.Root == xp.RootAbs && len(p.Steps) > 0 && p.Steps[0].Kind != xp.SName {
+		p.Steps[0] = xp.Step{Kind: xp.SName, Name: "top"}
+	}
+	p.Steps = append(p.Steps, xp.Step{Kind: xp.SName, Name: "tags"})
+	return xp.PathNode(p)
+}
+
 func c02GenExpr(r *core.Rng) *xp.Node {
 	p1 := c02GenPath(r)
-	switch r.Intn(10) {
+	switch r.Intn(12) {
+	case 10, 11:
+		// a comparison with a leaf-list, then paths with predicates: what the comparison did to the
+		// evaluation context must not reach the predicates
+		cmp := xp.Bin(core.Pick(r, []string{"=", "=", "!="}), c02TagsPath(r), xp.Lit(core.Pick(r, []string{"blue", "red", "green"})))
+		if r.Chance(1, 4) {
+			cmp = xp.Bin("=", xp.Lit("blue"), c02TagsPath(r))
+		}
+		rest := xp.Bin(core.Pick(r, []string{"=", "!="}), p1, core.Pick(r, []*xp.Node{xp.Lit("x"), c02GenPath(r)}))
+		if r.Bool() {
+			return xp.Bin(core.Pick(r, []string{"and", "or"}), cmp, rest)
+		}
+		return xp.Bin(core.Pick(r, []string{"and", "or"}), rest, xp.Bin("and", cmp, xp.Bin("=", c02GenPath(r), xp.Lit("y"))))
 	case 0, 1, 2, 3, 4:
 		return p1
 	case 5:
@@ -415,11 +439,27 @@ func (p *c02) Describe(tier string, seed int64, idx int) string {
 
 // c02AnswerSalted: the same shape of tree with different leaf values, for the
 // second and third evaluation of one compiled machine.
+func c02IsTags(path string) bool {
+	last := path
+	if i := strings.LastIndex(last, "/"); i >= 0 {
+		last = last[i+1:]
+	}
+	return last == "tags"
+}
+
 func c02AnswerSalted(salt int) func(string) xp.Answer {
 	if salt == 0 {
-		return c02Answer
+		return func(path string) xp.Answer {
+			if c02IsTags(path) {
+				return xp.Answer{Kind: xp.AnsLeafList, Vals: []string{"red", "blue"}}
+			}
+			return c02Answer(path)
+		}
 	}
 	return func(path string) xp.Answer {
+		if c02IsTags(path) {
+			return xp.Answer{Kind: xp.AnsLeafList, Vals: []string{"red", fmt.Sprintf("t%d", salt), "blue"}}
+		}
 		return xp.Answer{Kind: xp.AnsLeaf, Vals: []string{fmt.Sprintf("w%d%x", salt, core.Hash(fmt.Sprintf("%d|%s", salt, path))&0xffffff)}}
 	}
 }
